@@ -447,9 +447,12 @@ def _clones(ctx, counts) -> RuleResult:
 
 def run(ctx) -> dict:
     counts: dict[str, int] = {}
+    # process-wide state is written only by the reviewed inventory (no new caches)
+    from .c19_global import r19_5 as _r19_5
+    _state = _r19_5(ctx, counts, lambda f: f.module.name.startswith(('elementpath.datatypes', 'elementpath.helpers')), 1)
     return {
         'results': [r11_1(ctx, counts), r11_2(ctx, counts), r11_3(ctx, counts), _clones(ctx, counts),
-                    r11_5(ctx, counts)],
+                    r11_5(ctx, counts), _state],
         'counts': counts,
         'explanation':
             'Only the last sentence of C11 is decided ("the component-extraction functions '
